@@ -265,8 +265,7 @@ def load_findings(pid):
 def main(pid, tier, obligations, assumptions, explanation, level="other", trusted=(), outside=()):
     """Run all obligations of one property, print verdict lines, write evidence, return exit code."""
     t0 = time.time()
-    work = os.path.join(ROOT, ".work", pid)
-    os.makedirs(work, exist_ok=True)
+    work = workdir("%s-%d" % (pid, os.getpid()))      # per invocation: concurrent runs of the same check do not disturb each other
     results = []
     fns = [o for o in obligations if isinstance(o, FN)]
     chs = [o for o in obligations if isinstance(o, CH)]
